@@ -345,6 +345,7 @@ type vfhRun struct {
 	nmut          int
 	mutDesc       string
 	obs           []string
+	auto          []map[string]any // deliveries the intruder added on its own at the end (see finish)
 }
 
 func vfhMust(err error, what string) {
@@ -957,6 +958,9 @@ func (r *vfhRun) finish() map[string]any {
 				s.in = append(s.in, "I:ack+!")
 				s.conn.deliver(vfhFrame(&RequesterAcknowledgePayload{Success: true}))
 				s.conn.settle()
+				out, key := r.outcome(s, r.collect(s))
+				r.auto = append(r.auto, map[string]any{"ev": "ack", "s": s.i, "x": "t", "src": 0, "acct": "-", "pfk": "-", "pfj": 0,
+					"c": false, "skip": false, "auto": true, "out": out, "key": key})
 			}
 			if !s.closed {
 				s.conn.closeIn()
@@ -1045,6 +1049,9 @@ func vfhExec(j vfhJob) ([]map[string]any, int) {
 		}
 	}
 	fin := r.finish()
+	if j.steps {
+		evs = append(evs, r.auto...)
+	}
 	low, f, _ := vfhUses(j.sc)
 	// does the model describe this concretisation?  (a "low" encoding that is not degenerate
 	// in this X25519 implementation, or the small-order identity key, are executed and judged
